@@ -29,7 +29,7 @@ for c in "${cmds[@]}"; do
   [ "$fails" = 0 ] || regok=0
   echo "$o" | grep -qE "^error(\[|:) " && { echo "$o" | grep -E "could not compile" >/dev/null && regok=0; }
 done
-if [ -f "$out/demo/Cargo.toml" ]; then mkdir -p "$WT/$dest"; cp -r "$out"/demo/. "$WT/$dest/"; else mkdir -p "$WT/$dest"; cp "$out"/demo/*.rs "$WT/$dest/" 2>/dev/null; fi
+mkdir -p "$WT/$dest"; cp -r "$out"/demo/. "$WT/$dest/"; rm -f "$WT/$dest/README.txt" "$WT/$dest"/*.diff
 # a demonstration may need a test-infrastructure tweak (never a change to tonic's source)
 for extra in "$out"/demo/*.diff; do [ -f "$extra" ] && git apply "$extra" && echo "applied test-infra diff $(basename $extra)" >> $log; done
 o=$(bash -c "$democmd" 2>&1); echo "\$ (with change) $democmd" >> $log; echo "$o" | tail -15 >> $log
